@@ -213,8 +213,7 @@ type KnownPanic struct {
 }
 
 // KnownPanics is consulted by Guard.
-var KnownPanics = []KnownPanic{
-}
+var KnownPanics = []KnownPanic{}
 
 func knownAnyProp(key string) bool {
 	knownOnce.Do(loadKnown)
